@@ -163,3 +163,95 @@ def all_series_finite(ctx, holder):
     v = st.list_get(lst, j)
     return mk_bool(forall([k, j], z3.Implies(z3.And(st.dict_has(holder, name), 0 <= j, j < st.list_len(lst)), ops.xr_tag(v.t) == FIN),
                           patterns=[v.t]))
+
+
+@specfn('fields_unchanged_but')
+def fields_unchanged_but(ctx, obj, *names):
+    """the named field families changed at `obj` only; every other heap family is unchanged (objects allocated at entry)"""
+    fams = set('f.' + n.t.as_string() for n in names)
+    st, old = ctx.st, ctx.entry
+    r = z3.Int(fresh_name('r'))
+    conj = []
+    for name in sorted(FAM_SORTS):
+        now, then = _fam_now(st, name), _fam_now(old, name)
+        if now is then or z3.eq(now, then) or name == 'tyof':
+            continue
+        if name.startswith('g.'):
+            conj.append(now == then)
+            continue
+        guard = z3.And(r > 0, r < old.alloc)
+        if name in fams:
+            guard = z3.And(guard, r != obj.t)
+        conj.append(forall([r], z3.Implies(guard, z3.Select(now, r) == z3.Select(then, r)), patterns=[z3.Select(now, r)]))
+    return mk_bool(z3.And(*conj) if conj else z3.BoolVal(True))
+
+
+NoSpace = z3.Function('py_nospace', z3.StringSort(), z3.StringSort())
+IsProduct = z3.Function('is_product_text', z3.StringSort(), z3.BoolSort())
+
+
+@specfn('nospace')
+def nospace(ctx, s):
+    """str(term).strip().replace(' ', '')  (T-LIB: stripping first does not matter)"""
+    ctx.side.append(NoSpace(ops_strip(s.t)) == NoSpace(s.t))
+    return SV(STR, NoSpace(s.t))
+
+
+@specfn('is_product')
+def is_product(ctx, s):
+    """text is NAME|NUMBER [(*|/) NAME|NUMBER]  (T-TOK: decided by CPython's tokenizer)"""
+    return mk_bool(IsProduct(s.t))
+
+
+@specfn('old_objects_unchanged_except_dict')
+def old_objects_unchanged_except_dict(ctx, d):
+    """every heap family agrees with the entry state on objects allocated at entry, except the dict families at `d`
+    and the (ghost) key list of `d`"""
+    st, old = ctx.st, ctx.entry
+    r = z3.Int(fresh_name('r'))
+    conj = []
+    kl_old = old.dict_keylist(d)
+    for name in sorted(FAM_SORTS):
+        now, then = _fam_now(st, name), _fam_now(old, name)
+        if now is then or z3.eq(now, then) or name == 'tyof':
+            continue
+        if name.startswith('g.'):
+            conj.append(now == then)
+            continue
+        guard = z3.And(r > 0, r < old.alloc)
+        if name.startswith('dh.') or name.startswith('dv.') or name == 'dk':
+            guard = z3.And(guard, r != d.t)
+        if name == 'len' or name.startswith('el.'):
+            guard = z3.And(guard, r != kl_old.t)
+        conj.append(forall([r], z3.Implies(guard, z3.Select(now, r) == z3.Select(then, r)), patterns=[z3.Select(now, r)]))
+    return mk_bool(z3.And(*conj) if conj else z3.BoolVal(True))
+
+TermText = z3.Function('term_text', z3.StringSort(), z3.StringSort())
+TermSign = z3.Function('term_sign', z3.StringSort(), z3.RealSort())
+
+
+@specfn('term_text')
+def term_text(ctx, s):
+    """text of the Term that Term(s) constructs (function of the squeezed string)"""
+    ctx.side.append(NoSpace(ops_strip(s.t)) == NoSpace(s.t))
+    return SV(STR, TermText(NoSpace(s.t)))
+
+
+@specfn('term_sign')
+def term_sign(ctx, s):
+    return SV(FLOAT, TermSign(NoSpace(s.t)))
+
+
+def ops_strip(t):
+    from pyvc import ops
+    return ops.Strip(t)
+
+
+TermOutcome = z3.Function('term_outcome', z3.StringSort(), z3.IntSort())
+
+
+@specfn('term_outcome')
+def term_outcome(ctx, s):
+    """0: Term(s) is accepted; 1/2/3: SyntaxError / LogicError / NotImplementedError (function of the squeezed string)"""
+    ctx.side.append(NoSpace(ops_strip(s.t)) == NoSpace(s.t))
+    return SV(INT, TermOutcome(NoSpace(s.t)))
